@@ -337,6 +337,12 @@ class Scheduler(object):
             guard += 1
             if w.calls > MAX_CALLS or len(self.ops) > MAX_OPS or guard > 2000:
                 self.stats["capped"] = self.stats.get("capped", 0) + 1
+                # generated definitions are bounded (<= 12 tasks, <= 3 loop iterations, <= 3 retries,
+                # <= 6 items): a run that has not come to rest after this many handler steps is not
+                # making progress towards a resting status
+                w.report("C03", "bounded_progress", "no resting point after %d handler steps / %d API calls "
+                         "(status %s, %d in flight)" % (len(self.ops), w.calls, w.status, len(w.inflight)))
+                w.report("C13", "bounded", "run does not terminate within %d handler steps" % len(self.ops))
                 return
             self.inject()
             if not len(self.heap):
